@@ -850,6 +850,24 @@ theorem c04_dispatch_chan_plain (s : IState) (mt cap : Nat) (b : List Msg) (hb :
                        .sent (b.map fun m => [m])) := by
   simp [dispatch, ht, hf, sendPlain_room cap (s.chans mt) b hroom, hb]
 
+/-- **a slow reader loses nothing**: a complete batch for a slice-form channel is either put into the channel or
+— when the channel has no room (always, for an unbuffered one) — kept by the reader goroutine, which waits
+inside `Send`; it is never dropped … -/
+theorem c04_slice_channel_never_drops (s : IState) (mt cap : Nat) (b : List Msg)
+    (ht : s.reg.target mt = .chan .slice cap) (hf : s.reg.flags mt = true) :
+    ((dispatch s mt b).2 = .sent [b] ∧ (dispatch s mt b).1.chans mt = s.chans mt ++ [b] ∧
+        (dispatch s mt b).1.stuck = s.stuck) ∨
+    ((dispatch s mt b).2 = .blocked ∧ (dispatch s mt b).1.chans = s.chans ∧
+        (dispatch s mt b).1.stuck = some (mt, b)) := by
+  by_cases hroom : (s.chans mt).length < cap
+  · left; simp [dispatch, ht, hf, hroom]
+  · right; simp [dispatch, ht, hf, hroom]
+
+/-- … and the protocol receives it, behind everything that was in the channel, as soon as it reads. -/
+theorem c04_blocked_batch_received (s : IState) (mt : Nat) (b : List Msg) (h : s.stuck = some (mt, b)) :
+    (irecv s mt).2 = s.chans mt ++ [b] ∧ (irecv s mt).1.stuck = none ∧ (irecv s mt).1.chans mt = [] := by
+  simp [irecv, h]
+
 /-- the documented boundary of plain channels: a message that finds the channel full (`out.Len() == out.Cap()`,
 always the case for an unbuffered channel) is not delivered — `dispatchChannel` returns "channel too small" -/
 theorem c04_plain_channel_full_drops (s : IState) (mt cap : Nat) (m : Msg)
